@@ -358,6 +358,7 @@ func cmdCheck(args []string) {
 		timeout = 60
 	}
 	scfg := SolveCfg{TimeoutS: timeout, Workers: 16, TmpDir: filepath.Join(os.TempDir(), "gowp-q"), CacheDir: filepath.Join(verifRoot, ".cache")}
+	scfg.NoReuse = tier == "thorough"
 	cr := eng.runProperty(prop, cfg, scfg)
 	cr.tier, cr.seed = tier, seed
 	baseline := claims.Props[prop]
@@ -422,6 +423,7 @@ func cmdCheck(args []string) {
 	bySolver := map[string]int{}
 	byClass := map[string]int{}
 	var solverTime, maxTime float64
+	nReused := 0
 	for _, o := range cr.obls {
 		ok := o.Result == "unsat"
 		if o.Canary {
@@ -440,6 +442,9 @@ func cmdCheck(args []string) {
 				nClaimed++
 				nDischarged++
 				bySolver[strings.TrimSuffix(o.Solver, " (cached)")]++
+				if strings.HasSuffix(o.Solver, " (cached)") {
+					nReused++
+				}
 				byClass[o.Class]++
 				solverTime += o.Time
 				if o.Time > maxTime {
@@ -510,7 +515,7 @@ func cmdCheck(args []string) {
 			missing++
 		}
 	}
-	writeEvidence(cr, nClaimed, nDischarged, bySolver, byClass, solverTime, maxTime, knownNames, undecided, violations, missing, time.Since(t0).Seconds())
+	writeEvidence(cr, nClaimed, nDischarged, nReused, bySolver, byClass, solverTime, maxTime, knownNames, undecided, violations, missing, time.Since(t0).Seconds())
 	fmt.Printf("%s %s: %d claimed obligations, %d discharged, %d known findings, %d undecided (unclaimed), %d violations, %d units, %.1fs\n",
 		prop, tier, nClaimed, nDischarged, len(knownNames), len(undecided), len(violations), len(cr.units), time.Since(t0).Seconds())
 	os.Exit(exit)
@@ -592,7 +597,7 @@ func truncate(s string, n int) string {
 	return s
 }
 
-func writeEvidence(cr *checkRun, nClaimed, nDischarged int, bySolver, byClass map[string]int, solverTime, maxTime float64,
+func writeEvidence(cr *checkRun, nClaimed, nDischarged, nReused int, bySolver, byClass map[string]int, solverTime, maxTime float64,
 	known []string, undecided, violations []*Obligation, missing int, wall float64) {
 	var fns []map[string]interface{}
 	for _, u := range cr.units {
@@ -646,6 +651,8 @@ func writeEvidence(cr *checkRun, nClaimed, nDischarged int, bySolver, byClass ma
 		"trusted_base":             []string{"golang.org/x/tools/go/ssa v0.29.0", "gowp VC generator (/verif/gowp)", "z3 5.1.0", "z3 4.8.12", "cvc5 1.0", "library models named under assumptions"},
 		"functions_under_contract": fns, "by_solver": bySolver, "by_class": byClass,
 		"solver_time_s": round3(solverTime), "max_query_time_s": round3(maxTime),
+		"answers_reused_from_result_store": nReused,
+		"result_store":                     "a query byte-identical (SHA-256 of the SMT-LIB text generated from the current tree) to one a solver already answered reuses that answer from /verif/.cache (not committed; absent on a fresh restore, where every query is solved); solver_time_s counts the time the answer originally took; the thorough tier never reuses answers",
 		"known_findings": known, "unclaimed_undecided": und, "claimed_obligations_absent_from_this_tree": missing,
 		"out_of_reach": cr.outOfReach, "samples": samples,
 		"explanation": "obligations = claimed obligations (discharged on the pinned tree, or new on a function that was fully discharged) generated from the current tree; discharged = those answered unsat now. Known findings and obligations unclaimed at baseline are listed separately and never counted.",
